@@ -1,4 +1,4 @@
-import GcArena.Proofs.DynCompose
+import GcArena.Proofs.DynReach
 import GcArena.Props.C14
 import GcArena.Props.C02
 /-!
@@ -6,36 +6,57 @@ import GcArena.Props.C02
 
 "An object stashed in a DynamicRootSet that is reachable from the root, and everything reachable
 from it, survives every collection while at least one DynamicRoot handle for it (the original or
-any clone) exists, and becomes collectable once the last such handle is dropped."
+any clone) exists, and becomes collectable once the last such handle is dropped.  fetch returns a
+pointer to the very object that was stashed …"  — quantified "for every interleaving of stash,
+clone, drop, fetch across several handles, sets and arenas with collection increments in every
+phase, including slot reuse after frees".
 
 Props/C14.lean proves the slot-table half (`DynRoots`: the table holds exactly the pointers of the
-live handles); the collector development proves what happens to pointers an accessible object
-reports (`inv_run`, C01, C02).  Here the two are **one system** (`GcArena.DynCompose.Sys`,
-Proofs/DynCompose.lean): an arena, a slot-table state, and for every set the heap object that is its
-`Gc<Inner>`; every coupled operation (`COp`) is a `DynRoots.Op` paired with a list of existing
-`GcArena.Op`s — `stash` = `backward_barrier(set, Some(r))` + raw slot store, dropping the last
-handle of a slot = a barrier-free, pointer-free clearing of the slot (outside any callback, also
-between two collection increments), interleaved with arbitrary collector-model ops.
+live handles; foreign handles; slot reuse; handles outliving their set); the collector development
+proves what happens to pointers an accessible object reports (`inv_run`, C01, C02).  Here the two
+are **one system**, in two versions.
 
-* `coupled_run` — the coupling relation `Coupled` (the set object is allocated, undestructed, and
-  its slot `i` holds `r` strongly iff table slot `i` is occupied by `r`) holds after **every**
-  coupled operation sequence, and both sides are runs of the two existing models.
-* `stashed_survives_while_handle` — first half of the property, with no hypothesis about slots.
+## Full strength: the general system (`GcArena.DynReach`, Proofs/DynReach.lean)
+
+A set object may be referenced from anywhere in the heap (or from nowhere); its slot list is exactly
+the image of the slot table and grows with it (no capacity); a handle may be dropped in any state of
+the arena — any phase, inside or outside a callback, between `finish_marking()` and
+`MarkedArena::finalize` (the `finalize` callback may fetch and stash); a set is destroyed exactly
+when its object is destructed (swept, or the arena dropped); other arenas and their sets act as an
+environment.  Interleaved with arbitrary collector-model ops (`GOp.gc`).
+
+Each clause is a `def …_statement : Prop` with the theorem of the same name proving it:
+
+* `coupled_run` — the coupling relation `GCoupled` holds after every operation sequence.
+* `stashed_survives_while_handle` — first half; hypothesis: the set object is accessible (strongly
+  reachable from the root, or held) *in the state in question* — nothing about slots, pinning or
+  capacity.  `stashed_survives_in_window` is the reading over a window of a history,
+  `stashed_survives_pinned` the corollary for a set stored directly in a root slot.
 * `not_in_set_after_last_drop`, `collectable_after_last_drop` — second half.
 * `fetch_is_the_stashed_object`, `fetch_holds` — `fetch` returns the content of the set object's slot.
-* `drop_outside_callback_net_effect`, `stash_net_effect` — what the encodings do to the arena.
-* `arena_drop_destroys_sets`, `handles_outlive_arena` — the arena drop, coupled with `destroySet`.
+* `set_destroyed_iff_object_destructed`, `handles_outlive_arena`.
 
-What is assumed / encoded — **restrictions R1–R6 of Proofs/DynCompose.lean**: one arena; every set
-object is stored directly in a root slot that is never overwritten (so, while the arena exists, it
-is strongly reachable from the root and never collected; `destroySet` occurs only as part of the
-arena drop); the set object is allocated with a fixed number `cap` of slots and a `stash` needing
-index `≥ cap` is not a coupled operation; client stores into set objects are excluded (the field is
-private); a handle dropped while the client holds a `MarkedArena` forfeits the `finalize` call; in
-the `Dynamic…::drop` encoding inside a running callback the set pointer joins the held pointers
-(conservative).  The two theorems
-`closure_accessible`, `stashed_survives` below are the earlier, hypothesis-carrying form and are
-what `stashed_survives_while_handle` instantiates.
+What this rests on, beyond the two models (see the docstring of Proofs/DynReach.lean): one arena is
+modelled in detail, the others as environment ops on their own sets; two transitions of the set
+object are not `Arena.step`s (growing the slot list by an empty slot; clearing a slot — both
+`reslot`, proved to preserve the collector invariant `Inv` in every state); handle ops are atomic
+between collector-model ops (a drop inside a destructor during a sweep = the call split in two
+oracle-driven `collect` ops); `ref_count` overflow and `Weak::as_ptr` stay trusted.
+
+## Existing ops only: the pinned system (`GcArena.DynCompose`, Proofs/DynCompose.lean) — `…_partial`
+
+The earlier composition: every coupled operation is a `DynRoots.Op` paired with a list of *existing*
+`GcArena.Op`s, so the arena is literally `(Arena.new n).run ops` and `inv_run`, `C02.exactness_run`
+apply verbatim.  Its theorems carry the suffix `_partial`; they hold under **R1** one arena, no
+environment; **R2** every set object is stored directly in a root slot that is never overwritten;
+**R3** the arena drop is a coupled op of its own; **R4** the set object has a fixed number `cap` of
+slots and a `stash` needing index `≥ cap` is not a coupled operation; **R5** no client stores into
+set objects; **R6** a handle dropped between `finish_marking()` and `MarkedArena::finalize` resets
+the model's `marked` flag, so exactly the histories `finish_marking → drop(handle) → finalize(..)`
+are excluded (every other placement of a handle drop is covered).  `drop_outside_callback_net_effect`
+ties the two systems: the op-encoded drop has exactly the effect of the general system's `clearArena`.
+
+`closure_accessible`, `stashed_survives` are the hypothesis-carrying lemmas both versions instantiate.
 -/
 namespace GcArena.C14s
 
@@ -63,19 +84,350 @@ theorem stashed_survives (n : Nat) (ops : List Op) (halive : ((Arena.new n).run 
   have hpa : Accessible ((Arena.new n).run ops) p := .edge s p hs ⟨o, ho, hp⟩
   exact hi.safe_of_accessible (closure_accessible hpa hj)
 
+
+/-! # Full strength: the general system -/
+
+section General
+open GcArena.DynReach
+
+/-- After every operation sequence of the general coupled system — from a fresh arena with `n` root
+slots and the empty slot-table state — the coupling relation holds. -/
+def coupled_run_statement : Prop :=
+  ∀ (n : Nat) (ops : List GOp), GCoupled ((GSys.init n).run ops)
+
+theorem coupled_run : coupled_run_statement :=
+  fun n ops => (GCoupled.init n).run ops
+
+/-- `GCoupled`, spelled out for one alive set of the arena: the arena exists; the set object is
+allocated and undestructed; its slot list has exactly the table's length; slot `i` holds `r`
+strongly iff table slot `i` is `Occupied { root = r, .. }`, and is empty iff it is `Vacant`; hence
+its strong slots are exactly what `Collect for Slots` reports. -/
+theorem set_object_mirrors_table (n : Nat) (ops : List GOp) (S : GSys) (hS : S = (GSys.init n).run ops)
+    (s x : Nat) (rs : RootSet) (hloc : S.loc[s]? = some (some x)) (hl : S.d.liveSet s = some rs) :
+    S.a.alive = true ∧ Inv S.a ∧
+    ∃ o, S.a.ctx.heap.get x = some o ∧ o.live = true ∧ o.slots = rs.slots.slots.map img ∧
+      o.slots.length = rs.slots.slots.length ∧
+      (∀ i r : Nat, o.slots[i]? = some (some (Ptr.strong r)) ↔
+        ∃ c, rs.slots.slots[i]? = some (DynRoots.Slot.occupied r c)) ∧
+      (∀ i : Nat, o.slots[i]? = some none ↔ ∃ nf, rs.slots.slots[i]? = some (DynRoots.Slot.vacant nf)) ∧
+      (∀ p, some (Ptr.strong p) ∈ o.slots ↔ p ∈ rs.slots.traced) := by
+  have hc : GCoupled S := by rw [hS]; exact coupled_run n ops
+  obtain ⟨hal, o, ho, hlive, _, hs⟩ := hc.sets s x rs hloc hl
+  refine ⟨hal, hc.inv hal, o, ho, hlive, hs, by rw [hs]; simp, ?_, ?_, ?_⟩
+  · intro i r
+    rw [hs, List.getElem?_map]
+    cases ht : rs.slots.slots[i]? with
+    | none => simp
+    | some y =>
+      cases y with
+      | vacant nf => simp [img]
+      | occupied r' c => simp [img]
+  · intro i
+    rw [hs, List.getElem?_map]
+    cases ht : rs.slots.slots[i]? with
+    | none => simp
+    | some y =>
+      cases y with
+      | vacant nf => simp [img]
+      | occupied r' c => simp [img]
+  · intro p; rw [hs]; exact mem_map_img
+
+/-- **First half of C14, at full strength.**  In every state of every history of the general
+system: for a live handle `h` of a set of the arena that is alive, whose set object `x` the client
+can reach (`Accessible`: strongly reachable from the root, or held by the running callback, or
+readable from such an object) — the stashed object is accessible too, and it and everything strongly
+reachable from it is allocated, undestructed and not condemned by the running sweep.  If `x` is
+strongly reachable from the root alone, so is the stashed object. -/
+def stashed_survives_while_handle_statement : Prop :=
+  ∀ (n : Nat) (ops : List GOp) (S : GSys), S = (GSys.init n).run ops →
+  ∀ (h : Handle) (rs : RootSet) (x : Nat), h ∈ S.d.handles → S.d.liveSet h.set = some rs →
+    S.loc[h.set]? = some (some x) → Accessible S.a x →
+    Accessible S.a h.ptr ∧ (StrongReach S.a x → StrongReach S.a h.ptr) ∧
+    ∀ j, AccessibleC S.a.ctx [] [Ptr.strong h.ptr] j → Safe S.a.ctx j
+
+theorem stashed_survives_while_handle : stashed_survives_while_handle_statement := by
+  intro n ops S hS h rs x hm hl hloc hacc
+  have hc : GCoupled S := by rw [hS]; exact coupled_run n ops
+  obtain ⟨_, hinv, o, ho, _, _, _, _, _, hmem⟩ := set_object_mirrors_table n ops S hS h.set x rs hloc hl
+  have htr : h.ptr ∈ rs.slots.traced := C14.traced_while_handle S.dops S.d hc.dyn h hm rs hl
+  have hp : some (Ptr.strong h.ptr) ∈ o.slots := (hmem h.ptr).2 htr
+  have hpa : Accessible S.a h.ptr := .edge x h.ptr hacc ⟨o, ho, hp⟩
+  exact ⟨hpa, fun hr => .edge x h.ptr hr ⟨o, ho, hp⟩,
+    fun j hj => hinv.safe_of_accessible (closure_accessible hpa hj)⟩
+
+/-- The same over a window of a history: if after `pre` and after every further prefix of `win` the
+handle is live, its set alive and the set object accessible, then in each of those states the
+stashed object and its closure are `Safe` — it survives every collection call, increment and
+handle operation in the window. -/
+theorem stashed_survives_in_window (n : Nat) (pre win : List GOp) (h : Handle) (x : Nat)
+    (hwin : ∀ k, k ≤ win.length →
+      h ∈ ((GSys.init n).run (pre ++ win.take k)).d.handles ∧
+      (∃ rs, ((GSys.init n).run (pre ++ win.take k)).d.liveSet h.set = some rs) ∧
+      ((GSys.init n).run (pre ++ win.take k)).loc[h.set]? = some (some x) ∧
+      Accessible ((GSys.init n).run (pre ++ win.take k)).a x) :
+    ∀ k, k ≤ win.length → ∀ j,
+      AccessibleC ((GSys.init n).run (pre ++ win.take k)).a.ctx [] [Ptr.strong h.ptr] j →
+      Safe ((GSys.init n).run (pre ++ win.take k)).a.ctx j := by
+  intro k hk
+  obtain ⟨hm, ⟨rs, hl⟩, hloc, hacc⟩ := hwin k hk
+  exact (stashed_survives_while_handle n _ _ rfl h rs x hm hl hloc hacc).2.2
+
+/-- The pinned case as a corollary: a set stored directly in a root slot. -/
+theorem stashed_survives_pinned (n : Nat) (ops : List GOp) (S : GSys) (hS : S = (GSys.init n).run ops)
+    (h : Handle) (rs : RootSet) (x k : Nat) (hm : h ∈ S.d.handles) (hl : S.d.liveSet h.set = some rs)
+    (hloc : S.loc[h.set]? = some (some x)) (hroot : S.a.root[k]? = some (some (.strong x))) :
+    StrongReach S.a h.ptr ∧ ∀ j, AccessibleC S.a.ctx [] [Ptr.strong h.ptr] j → Safe S.a.ctx j := by
+  have hr : StrongReach S.a x := .root x (List.mem_of_getElem? hroot)
+  obtain ⟨_, h2, h3⟩ := stashed_survives_while_handle n ops S hS h rs x hm hl hloc hr.accessible
+  exact ⟨h2 hr, h3⟩
+
+/-- Strongly reachable from the root by a path that does not use the edge `x → p`. -/
+inductive ReachAvoiding (c : Ctx) (root : List Slot) (x p : Nat) : Nat → Prop
+  | root (t) : some (Ptr.strong t) ∈ root → ReachAvoiding c root x p t
+  | edge (i t) : ReachAvoiding c root x p i → StrongEdge c i t → ¬ (i = x ∧ t = p) →
+      ReachAvoiding c root x p t
+
+
+/-- Once no live handle of the alive set `s` has pointer `p`, the set object holds `p` in none of its
+slots. -/
+def not_in_set_after_last_drop_statement : Prop :=
+  ∀ (n : Nat) (ops : List GOp) (S : GSys), S = (GSys.init n).run ops →
+  ∀ (s p x : Nat) (rs : RootSet), S.loc[s]? = some (some x) → S.d.liveSet s = some rs →
+    (∀ h ∈ S.d.handles, h.set = s → h.ptr ≠ p) →
+    ∀ o, S.a.ctx.heap.get x = some o → some (Ptr.strong p) ∉ o.slots
+
+theorem not_in_set_after_last_drop : not_in_set_after_last_drop_statement := by
+  intro n ops S hS s p x rs hloc hl hnone o ho hp
+  have hc : GCoupled S := by rw [hS]; exact coupled_run n ops
+  obtain ⟨_, _, o', ho', _, _, _, _, _, hmem⟩ := set_object_mirrors_table n ops S hS s x rs hloc hl
+  rw [ho] at ho'; cases ho'
+  exact C14.untraced_after_last_drop S.dops S.d hc.dyn s p rs hl hnone ((hmem p).1 hp)
+
+/-- **Second half of C14, at full strength.**  Outside callbacks, once no live handle of the alive
+set `s` has pointer `p`: if `p` is strongly reachable from the root by no route other than the edge
+"set object of `s` → `p`", it is not strongly reachable at all, and after two
+`arena.finish_cycle()` calls (ops `gfc` of the general system, i.e. two `.collect .finishCycle` ops
+of the collector model, each followed by `sync`) `p` is no longer an allocated undestructed object
+(`C02.exactness`). -/
+def collectable_after_last_drop_statement : Prop :=
+  ∀ (n : Nat) (ops : List GOp) (S : GSys), S = (GSys.init n).run ops →
+  ∀ (s p x : Nat) (rs : RootSet), S.loc[s]? = some (some x) → S.d.liveSet s = some rs →
+    (∀ h ∈ S.d.handles, h.set = s → h.ptr ≠ p) → S.a.cb = none →
+    ¬ ReachAvoiding S.a.ctx S.a.root x p p →
+    ¬ StrongReach S.a p ∧
+    ((S.step gfc).step gfc).a.ctx = C02.finishCycle2 S.a.ctx S.a.root ∧
+    ¬ ∃ o, ((S.step gfc).step gfc).a.ctx.heap.get p = some o ∧ o.live = true
+
+theorem collectable_after_last_drop : collectable_after_last_drop_statement := by
+  intro n ops S hS s p x rs hloc hl hnone hcb hother
+  have hc : GCoupled S := by rw [hS]; exact coupled_run n ops
+  obtain ⟨hal, _⟩ := hc.sets s x rs hloc hl
+  have hnot := not_in_set_after_last_drop n ops S hS s p x rs hloc hl hnone
+  have havoid : ∀ j, StrongReach S.a j → ReachAvoiding S.a.ctx S.a.root x p j := by
+    intro j hj
+    induction hj with
+    | root t ht => exact .root t ht
+    | temp t ht => cases ht
+    | edge i t _ e ih =>
+      refine .edge i t ih e ?_
+      rintro ⟨rfl, rfl⟩
+      obtain ⟨o, ho, hp⟩ := e
+      exact hnot o ho hp
+  have hunreach : ¬ StrongReach S.a p := fun hr => hother (havoid p hr)
+  obtain ⟨c1, r1, cb1, al1⟩ := hc.finishCycle hal hcb
+  obtain ⟨c2, _, _, _⟩ := (hc.step gfc).finishCycle al1 cb1
+  have hctx : ((S.step gfc).step gfc).a.ctx = C02.finishCycle2 S.a.ctx S.a.root := by
+    rw [c2, c1, r1]; rfl
+  refine ⟨hunreach, hctx, ?_⟩
+  rw [hctx]
+  intro hex
+  exact hunreach ((C02.exactness _ _ (cinv0 (hc.inv hal) hcb) p).mp hex)
+
+/-- **`fetch` returns the very object that was stashed.**  For a live handle `h` of the alive set
+`s` that issued it: `fetch` answers `h.ptr`, and `h.ptr` is what slot `h.index` of the set object
+holds. -/
+def fetch_is_the_stashed_object_statement : Prop :=
+  ∀ (n : Nat) (ops : List GOp) (S : GSys), S = (GSys.init n).run ops →
+  ∀ (s x : Nat) (rs : RootSet) (h : Handle), S.loc[s]? = some (some x) → S.d.liveSet s = some rs →
+    h ∈ S.d.handles → h.set = s →
+    DynRoots.step S.d (.fetch s h) = .ok S.d (.ptr h.ptr) ∧
+    ∃ o, S.a.ctx.heap.get x = some o ∧ o.slots[h.index]? = some (some (.strong h.ptr))
+
+theorem fetch_is_the_stashed_object : fetch_is_the_stashed_object_statement := by
+  intro n ops S hS s x rs h hloc hl hm hs
+  have hc : GCoupled S := by rw [hS]; exact coupled_run n ops
+  obtain ⟨hf, _, _, hocc, _⟩ := (C14.fetch_identity S.dops S.d hc.dyn s rs h hl hm).1 hs
+  obtain ⟨_, _, o, ho, _, _, _, hiff, _, _⟩ := set_object_mirrors_table n ops S hS s x rs hloc hl
+  exact ⟨hf, o, ho, (hiff h.index h.ptr).2 hocc⟩
+
+/-- The coupled `fetch` inside a callback (of any kind, `finalize` included) that holds the set
+pointer: the read is accepted and returns the stashed pointer, which the callback then holds — hence
+it is `Safe`; heap, root and tables are unchanged. -/
+theorem fetch_holds (n : Nat) (ops : List GOp) (S : GSys) (hS : S = (GSys.init n).run ops)
+    (s x : Nat) (rs : RootSet) (h : Handle) (hloc : S.loc[s]? = some (some x))
+    (hl : S.d.liveSet s = some rs) (hm : h ∈ S.d.handles) (hs : h.set = s) (hcb : S.a.cb ≠ none)
+    (hx : S.a.holds (.strong x) = true) :
+    (S.step (.fetch s h)).a.holds (.strong h.ptr) = true ∧
+    (S.step (.fetch s h)).a.ctx = S.a.ctx ∧ (S.step (.fetch s h)).a.root = S.a.root ∧
+    (S.step (.fetch s h)).d = S.d ∧ Safe (S.step (.fetch s h)).a.ctx h.ptr := by
+  have hc : GCoupled S := by rw [hS]; exact coupled_run n ops
+  obtain ⟨hal, _⟩ := hc.sets s x rs hloc hl
+  obtain ⟨_, o, ho, hslot⟩ := fetch_is_the_stashed_object n ops S hS s x rs h hloc hl hm hs
+  have hcs : S.a.cb.isSome = true := by cases hx : S.a.cb <;> simp_all
+  have hcont : DynRoots.containsB s h = true := by simp [DynRoots.containsB, hs]
+  have e : S.step (.fetch s h) =
+      ({ S with a := (S.a.step (.read x h.index)).1 } : GSys).doD (.fetch s h) := by
+    simp [GSys.step, GSys.fetchLike, hloc, hal, hcs, hx, hm, hl, hcont]
+  have hc' : GCoupled (S.step (.fetch s h)) := hc.step _
+  have e1 := step_read (a := S.a) (x := x) (i := h.index) (o := o) (q := .strong h.ptr) hal hcb hx ho hslot
+  obtain ⟨c1, c2, _, _, _, c6, _, _⟩ := ({ S.a with marked := false } : Arena).push_spec (.strong h.ptr)
+  rw [e] at hc' ⊢
+  have hh : (S.a.step (.read x h.index)).1.holds (.strong h.ptr) = true := by
+    rw [e1]; exact holds_push_self _ _
+  refine ⟨hh, ?_, ?_, DynRoots.next_fetch _ _ _, ?_⟩
+  · show (S.a.step (.read x h.index)).1.ctx = S.a.ctx
+    rw [e1, c1]
+  · show (S.a.step (.read x h.index)).1.root = S.a.root
+    rw [e1, c2]
+  · have hal' : (S.a.step (.read x h.index)).1.alive = true := by rw [e1, c6]; exact hal
+    exact (hc'.inv hal').ptrOK_of_holds (p := .strong h.ptr) hh
+
+/-- A set of the arena is alive in the slot-table state only if its object is allocated and
+undestructed; and a collector-model op that destructs the object of an alive set (a sweep step
+reaching it, or the arena drop) destroys the set in the same step of the general system. -/
+theorem set_destroyed_iff_object_destructed (n : Nat) (ops : List GOp) (S : GSys)
+    (hS : S = (GSys.init n).run ops) (s x : Nat) (hloc : S.loc[s]? = some (some x)) :
+    ((∃ rs, S.d.liveSet s = some rs) → objLive S.a x = true) ∧
+    (∀ op, S.allowed op = true → objLive (S.a.step op).1 x = false →
+      (S.step (.gc op)).d.liveSet s = none) := by
+  have hc : GCoupled S := by rw [hS]; exact coupled_run n ops
+  refine ⟨?_, ?_⟩
+  · rintro ⟨rs, hl⟩
+    obtain ⟨hal, o, ho, hlive, _⟩ := hc.sets s x rs hloc hl
+    simp [objLive, hal, ho, hlive]
+  · intro op hal hdead
+    have hc' : GCoupled (S.step (.gc op)) := hc.step _
+    have e : S.step (.gc op) = ({ S with a := (S.a.step op).1 } : GSys).sync := by
+      simp [GSys.step, hal]
+    cases hl : (S.step (.gc op)).d.liveSet s with
+    | none => rfl
+    | some rs =>
+      exfalso
+      have hloc' : (S.step (.gc op)).loc[s]? = some (some x) := by
+        rw [e]; unfold GSys.sync; rw [(GSys.doDs_spec _ _).2.1]; exact hloc
+      obtain ⟨hal', o, ho, hlive, _⟩ := hc'.sets s x rs hloc' hl
+      have ha : (S.step (.gc op)).a = (S.a.step op).1 := by rw [e, GSys.sync_a]
+      rw [ha] at hal' ho
+      simp [objLive, hal', ho, hlive] at hdead
+
+/-- Handles outlive their arena harmlessly: once the arena has been dropped, no set of the arena is
+alive, so cloning or dropping a handle of such a set only adds / removes the handle, and `fetch`
+on such a set is not a call a client can make. -/
+theorem handles_outlive_arena (n : Nat) (ops : List GOp) (S : GSys) (hS : S = (GSys.init n).run ops)
+    (hdead : S.a.alive = false) (h : Handle) (hm : h ∈ S.d.handles) (x : Nat)
+    (hloc : S.loc[h.set]? = some (some x)) :
+    S.d.liveSet h.set = none ∧
+    DynRoots.step S.d (.clone h) = .ok { S.d with handles := h :: S.d.handles } (.handle h) ∧
+    DynRoots.step S.d (.dropHandle h) = .ok { S.d with handles := S.d.handles.erase h } .unit ∧
+    DynRoots.step S.d (.fetch h.set h) = .illFormed := by
+  have hc : GCoupled S := by rw [hS]; exact coupled_run n ops
+  have hnone : S.d.liveSet h.set = none := by
+    cases hl : S.d.liveSet h.set with
+    | none => rfl
+    | some rs =>
+      obtain ⟨hal, _⟩ := hc.sets h.set x rs hloc hl
+      rw [hdead] at hal; cases hal
+  obtain ⟨h1, h2⟩ := C14.outlive S.d h hm hnone
+  exact ⟨hnone, h1, h2, by simp [DynRoots.step, hm, hnone]⟩
+
+/-! ### Non-vacuity of the general system (evaluated by the kernel) -/
+
+/-- Root → object 0 → set object 1 (the set is **not** in a root slot); object 2 stashed (the slot list
+grows from `[]`); `finish_marking` keeping the `MarkedArena`; the only handle of object 2 is dropped
+**while the `MarkedArena` is outstanding**; the `finalize` callback reads its way to the set, stashes
+a fresh white object 3 into the black set (slot 0 is reused) and fetches it; two `finish_cycle`
+calls; then the set is unlinked from object 0 and two more `finish_cycle` calls sweep it. -/
+def gdemo : List GOp := [
+  .gc (.enter .mutateRoot), .gc (.alloc true [none]), .gc (.rootStore 0 (some (.strong 0))),
+  .newSet, .gc (.store .write 0 0 (some (.strong 1))),
+  .gc (.alloc true [none]), .stash 0 2, .gc .leave,
+  .gc (.collect .finishMarking .finalize none none),
+  .dropHandle ⟨0, 0, 2, 0⟩,
+  .gc (.enter .finalize), .gc (.readRoot 0), .gc (.read 0 0), .gc (.alloc true [none]), .stash 0 3,
+  .fetch 0 ⟨0, 0, 3, 1⟩, .gc .leave,
+  gfc, gfc,
+  .gc (.enter .mutate), .gc (.readRoot 0), .gc (.store .write 0 0 none), .gc .leave,
+  gfc, gfc]
+
+/-- growth: the set object starts with no slot and has one after the first stash -/
+example : ((GSys.init 1).run (gdemo.take 4)).a.ctx.heap.get 1 = some ⟨.white, true, true, []⟩ ∧
+    ((GSys.init 1).run (gdemo.take 7)).a.ctx.heap.get 1 =
+      some ⟨.white, true, true, [some (.strong 2)]⟩ ∧
+    ((GSys.init 1).run (gdemo.take 7)).a.root = [some (.strong 0)] := by decide
+
+/-- the drop while the `MarkedArena` is outstanding: the slot is cleared, `marked` stays set, phase
+`Mark`, everything black -/
+example : ((GSys.init 1).run (gdemo.take 10)).a.marked = true ∧
+    ((GSys.init 1).run (gdemo.take 10)).a.ctx.heap.get 1 = some ⟨.black, true, true, [none]⟩ ∧
+    ((GSys.init 1).run (gdemo.take 10)).d.handles = [] := by decide
+
+/-- the `finalize` callback is accepted and stashes / fetches: slot 0 is reused for object 3, the
+black set object is re-grayed by the barrier, the fetched pointer is held -/
+example : ((GSys.init 1).run (gdemo.take 16)).a.cb = some .finalize ∧
+    ((GSys.init 1).run (gdemo.take 16)).a.ctx.heap.get 1 =
+      some ⟨.gray, true, true, [some (.strong 3)]⟩ ∧
+    ((GSys.init 1).run (gdemo.take 16)).a.temps = [.strong 3, .strong 1, .strong 0] ∧
+    ((GSys.init 1).run (gdemo.take 16)).d.handles = [⟨0, 0, 3, 1⟩] := by decide
+
+/-- two `finish_cycle` calls: object 2 (last handle dropped) is destructed and released; object 3
+(handle alive, set reachable through object 0) survives -/
+example : ((GSys.init 1).run (gdemo.take 19)).a.ctx.heap.get 2 = none ∧
+    ((GSys.init 1).run (gdemo.take 19)).a.ctx.log = [.freed 2, .dropped 2] ∧
+    ((GSys.init 1).run (gdemo.take 19)).a.ctx.heap.get 3 = some ⟨.white, true, true, [none]⟩ := by
+  decide
+
+/-- once the set is unlinked, the next cycles sweep the set object: the set is destroyed in that
+step; the handle outlives it; the stashed object 3 goes with the set -/
+example : ((GSys.init 1).run gdemo).a.ctx.heap.get 1 = none ∧
+    ((GSys.init 1).run gdemo).a.ctx.heap.get 3 = none ∧
+    ((GSys.init 1).run gdemo).d.liveSet 0 = none ∧
+    ((GSys.init 1).run gdemo).d.handles = [⟨0, 0, 3, 1⟩] ∧
+    ((GSys.init 1).run gdemo).a.ctx.err = none := by decide
+
+/-- `stashed_survives_while_handle` applies in the state after the `finalize` callback's stash: the
+set object 1 is reachable (root → 0 → 1), not pinned; object 3 is white, the set was black. -/
+example : Safe ((GSys.init 1).run (gdemo.take 15)).a.ctx 3 :=
+  (stashed_survives_while_handle 1 (gdemo.take 15) _ rfl ⟨0, 0, 3, 1⟩
+    ⟨true, ⟨[.occupied 3 0], DynRoots.nullIndex⟩⟩ 1 (by decide) (by decide) (by decide)
+    (.temp 1 (by decide))).2.2 3 (.temp 3 (by simp))
+
+/-- environment: a set of another arena, a stash into it, a foreign handle presented to this arena's
+set is refused (`C14.fetch_identity`), and the relation is unaffected -/
+example :
+    let S := (GSys.init 1).run (gdemo.take 8 ++ [.envNewSet, .envStash 1 77])
+    S.loc = [some 1, none] ∧ S.d.handles = [⟨1, 0, 77, 1⟩, ⟨0, 0, 2, 0⟩] ∧
+    DynRoots.step S.d (.fetch 0 ⟨1, 0, 77, 1⟩) = .panic .mismatchedRootSet ∧
+    S.a.ctx.heap.get 1 = some ⟨.white, true, true, [some (.strong 2)]⟩ := by decide
+
+end General
+
+/-! # Existing ops only: the pinned system (`…_partial`, restrictions R1–R6) -/
+
 /-! ## The coupling relation is an invariant -/
 
-/-- **`coupled_run`.**  After every coupled operation sequence from the initial coupled state (a
+/-- **`coupled_run_partial`.**  After every coupled operation sequence from the initial coupled state (a
 fresh arena with `n` root slots, `DynRoots.State.init`, no sets — sets are created by the coupled
 op `newSet`, which allocates the set object and stores it in a root slot): both sides are runs of
-the two existing models, and every set object mirrors its slot table. -/
-theorem coupled_run (n : Nat) (ops : List COp) : Coupled n ((Sys.init n).run ops) :=
+the two existing models, and every set object mirrors its slot table.
+Restricted form — pinned system of Proofs/DynCompose.lean, restrictions R1–R6 of the module docstring; full strength: `coupled_run`. -/
+theorem coupled_run_partial (n : Nat) (ops : List COp) : Coupled n ((Sys.init n).run ops) :=
   (Coupled.init n).run ops
 
 /-- `Coupled`, spelled out for one alive set: the root slot holds the set object; the set object is
 allocated, undestructed, has `cap` slots; **slot `i` is `some (strong r)` iff table slot `i` is
-`Occupied { root = r, .. }`**, else `none`; hence its strong slots are exactly `Slots.traced`. -/
-theorem set_object_mirrors_table (n : Nat) (ops : List COp) (S : Sys) (hS : S = (Sys.init n).run ops)
+`Occupied { root = r, .. }`**, else `none`; hence its strong slots are exactly `Slots.traced`.
+Restricted form — pinned system of Proofs/DynCompose.lean, restrictions R1–R6 of the module docstring; full strength: `set_object_mirrors_table`. -/
+theorem set_object_mirrors_table_partial (n : Nat) (ops : List COp) (S : Sys) (hS : S = (Sys.init n).run ops)
     (s : Nat) (rs : RootSet) (hl : S.d.liveSet s = some rs) :
     ∃ l o, S.loc[s]? = some l ∧ S.a.root[l.slot]? = some (some (.strong l.id)) ∧
       S.a.ctx.heap.get l.id = some o ∧ o.live = true ∧ o.slots.length = l.cap ∧
@@ -86,7 +438,7 @@ theorem set_object_mirrors_table (n : Nat) (ops : List COp) (S : Sys) (hS : S = 
         (o.slots[i]? = some none ↔ ∀ r c, rs.slots.slots[i]? ≠ some (DynRoots.Slot.occupied r c))) ∧
       (∀ p, some (Ptr.strong p) ∈ o.slots ↔ p ∈ rs.slots.traced) := by
   subst hS
-  have hc := (coupled_run n ops).live_of_liveSet hl
+  have hc := (coupled_run_partial n ops).live_of_liveSet hl
   obtain ⟨hsets, _⟩ := DynRoots.liveSet_eq_some.1 hl
   have hlt : s < ((Sys.init n).run ops).loc.length := by
     rw [hc.len]; exact (List.getElem?_eq_some_iff.1 hsets).1
@@ -125,31 +477,33 @@ theorem set_object_mirrors_table (n : Nat) (ops : List COp) (S : Sys) (hS : S = 
 
 /-- While the arena exists, every set object is strongly reachable from the root (restriction R2
 makes this hold by construction; it is the property's premise "a DynamicRootSet that is reachable
-from the root"). -/
-theorem set_reachable (n : Nat) (ops : List COp) (S : Sys) (hS : S = (Sys.init n).run ops)
+from the root").
+Restricted form — pinned system of Proofs/DynCompose.lean, restrictions R1–R6 of the module docstring. -/
+theorem set_reachable_partial (n : Nat) (ops : List COp) (S : Sys) (hS : S = (Sys.init n).run ops)
     (halive : S.a.alive = true) (s : Nat) (l : SetLoc) (hl : S.loc[s]? = some l) :
     StrongReach S.a l.id := by
   subst hS
-  have hc := (coupled_run n ops).live halive
+  have hc := (coupled_run_partial n ops).live halive
   have hs : s < ((Sys.init n).run ops).d.sets.length := by
     rw [← hc.len]; exact (List.getElem?_eq_some_iff.1 hl).1
   exact (hc.sets s l _ hl (List.getElem?_eq_getElem hs)).1.reach
 
-/-- **`stashed_survives_while_handle`.**  In every state of every coupled history — any
+/-- **`stashed_survives_while_handle_partial`.**  In every state of every coupled history — any
 interleaving of `newSet` / `stash` / `clone` / `dropHandle` / `fetch` with allocation, stores,
 barriers and collection calls of every kind, in every phase: if `h` is a live handle of an alive
 set, then the stashed object `h.ptr` is strongly reachable from the root, and it and everything
 strongly reachable from it is allocated, undestructed and not condemned by the running sweep.
-No hypothesis about slots: that the set object holds `h.ptr` is `Coupled` + `C14.traced_while_handle`. -/
-theorem stashed_survives_while_handle (n : Nat) (ops : List COp) (S : Sys)
+No hypothesis about slots: that the set object holds `h.ptr` is `Coupled` + `C14.traced_while_handle`.
+Restricted form — pinned system of Proofs/DynCompose.lean, restrictions R1–R6 of the module docstring; full strength: `stashed_survives_while_handle`. -/
+theorem stashed_survives_while_handle_partial (n : Nat) (ops : List COp) (S : Sys)
     (hS : S = (Sys.init n).run ops) (h : Handle) (hm : h ∈ S.d.handles) (rs : RootSet)
     (hl : S.d.liveSet h.set = some rs) :
     StrongReach S.a h.ptr ∧ ∀ j, AccessibleC S.a.ctx [] [Ptr.strong h.ptr] j → Safe S.a.ctx j := by
-  obtain ⟨l, o, hloc, _, ho, _, _, _, _, _, hmem⟩ := set_object_mirrors_table n ops S hS h.set rs hl
-  have hc : Live n S := (show Coupled n S by rw [hS]; exact coupled_run n ops).live_of_liveSet hl
+  obtain ⟨l, o, hloc, _, ho, _, _, _, _, _, hmem⟩ := set_object_mirrors_table_partial n ops S hS h.set rs hl
+  have hc : Live n S := (show Coupled n S by rw [hS]; exact coupled_run_partial n ops).live_of_liveSet hl
   have htr : h.ptr ∈ rs.slots.traced := C14.traced_while_handle S.dops S.d hc.dyn h hm rs hl
   have hp : some (Ptr.strong h.ptr) ∈ o.slots := (hmem h.ptr).2 htr
-  have hreach := set_reachable n ops S hS hc.alive h.set l hloc
+  have hreach := set_reachable_partial n ops S hS hc.alive h.set l hloc
   refine ⟨.edge l.id h.ptr hreach ⟨o, ho, hp⟩, ?_⟩
   have harena := hc.arena
   have halive : ((Arena.new n).run S.aops).alive = true := by rw [← harena]; exact hc.alive
@@ -160,32 +514,28 @@ theorem stashed_survives_while_handle (n : Nat) (ops : List COp) (S : Sys)
 
 /-! ## Second half: collectable once the last handle is dropped -/
 
-/-- Strongly reachable from the root by a path that does not use the edge `x → p`. -/
-inductive ReachAvoiding (c : Ctx) (root : List Slot) (x p : Nat) : Nat → Prop
-  | root (t) : some (Ptr.strong t) ∈ root → ReachAvoiding c root x p t
-  | edge (i t) : ReachAvoiding c root x p i → StrongEdge c i t → ¬ (i = x ∧ t = p) →
-      ReachAvoiding c root x p t
-
 /-- Once no live handle of set `s` has pointer `p`, the set object holds `p` in none of its slots
-(`C14.untraced_after_last_drop` + `Coupled`). -/
-theorem not_in_set_after_last_drop (n : Nat) (ops : List COp) (S : Sys) (hS : S = (Sys.init n).run ops)
+(`C14.untraced_after_last_drop` + `Coupled`).
+Restricted form — pinned system of Proofs/DynCompose.lean, restrictions R1–R6 of the module docstring; full strength: `not_in_set_after_last_drop`. -/
+theorem not_in_set_after_last_drop_partial (n : Nat) (ops : List COp) (S : Sys) (hS : S = (Sys.init n).run ops)
     (s p : Nat) (rs : RootSet) (hl : S.d.liveSet s = some rs)
     (hnone : ∀ h ∈ S.d.handles, h.set = s → h.ptr ≠ p) (l : SetLoc) (hloc : S.loc[s]? = some l)
     (o : Obj) (ho : S.a.ctx.heap.get l.id = some o) : some (Ptr.strong p) ∉ o.slots := by
-  obtain ⟨l', o', hloc', _, ho', _, _, _, _, _, hmem⟩ := set_object_mirrors_table n ops S hS s rs hl
+  obtain ⟨l', o', hloc', _, ho', _, _, _, _, _, hmem⟩ := set_object_mirrors_table_partial n ops S hS s rs hl
   rw [hloc] at hloc'; cases hloc'
   rw [ho] at ho'; cases ho'
-  have hc : Live n S := (show Coupled n S by rw [hS]; exact coupled_run n ops).live_of_liveSet hl
+  have hc : Live n S := (show Coupled n S by rw [hS]; exact coupled_run_partial n ops).live_of_liveSet hl
   intro hp
   exact C14.untraced_after_last_drop S.dops S.d hc.dyn s p rs hl hnone ((hmem p).1 hp)
 
-/-- **`collectable_after_last_drop`.**  Outside callbacks, once no live handle of set `s` has pointer
+/-- **`collectable_after_last_drop_partial`.**  Outside callbacks, once no live handle of set `s` has pointer
 `p`: if `p` is not strongly reachable from the root by any route other than the edge
 "set object of `s` → `p`", then `p` is not strongly reachable at all, and after two
 `arena.finish_cycle()` calls (the coupled ops `fc`, i.e. two `.collect .finishCycle` ops of the
 collector model) `p` is no longer an allocated undestructed object (`C02.exactness_run`); the two
-calls touch neither the slot tables nor the handles. -/
-theorem collectable_after_last_drop (n : Nat) (ops : List COp) (S : Sys) (hS : S = (Sys.init n).run ops)
+calls touch neither the slot tables nor the handles.
+Restricted form — pinned system of Proofs/DynCompose.lean, restrictions R1–R6 of the module docstring; full strength: `collectable_after_last_drop`. -/
+theorem collectable_after_last_drop_partial (n : Nat) (ops : List COp) (S : Sys) (hS : S = (Sys.init n).run ops)
     (s p : Nat) (rs : RootSet) (hl : S.d.liveSet s = some rs)
     (hnone : ∀ h ∈ S.d.handles, h.set = s → h.ptr ≠ p) (l : SetLoc) (hloc : S.loc[s]? = some l)
     (hcb : S.a.cb = none) (hother : ¬ ReachAvoiding S.a.ctx S.a.root l.id p p) :
@@ -194,8 +544,8 @@ theorem collectable_after_last_drop (n : Nat) (ops : List COp) (S : Sys) (hS : S
       S.a.run [.collect .finishCycle .drop none none, .collect .finishCycle .drop none none] ∧
     ((S.step fc).step fc).d = S.d ∧
     ¬ ∃ o, ((S.step fc).step fc).a.ctx.heap.get p = some o ∧ o.live = true := by
-  have hc : Live n S := (show Coupled n S by rw [hS]; exact coupled_run n ops).live_of_liveSet hl
-  have hnot := not_in_set_after_last_drop n ops S hS s p rs hl hnone l hloc
+  have hc : Live n S := (show Coupled n S by rw [hS]; exact coupled_run_partial n ops).live_of_liveSet hl
+  have hnot := not_in_set_after_last_drop_partial n ops S hS s p rs hl hnone l hloc
   have havoid : ∀ j, StrongReach S.a j → ReachAvoiding S.a.ctx S.a.root l.id p j := by
     intro j hj
     induction hj with
@@ -223,24 +573,26 @@ theorem collectable_after_last_drop (n : Nat) (ops : List COp) (S : Sys) (hS : S
 
 /-! ## fetch -/
 
-/-- **`fetch_is_the_stashed_object`.**  For a live handle `h` of the alive set `s` that issued it:
+/-- **`fetch_is_the_stashed_object_partial`.**  For a live handle `h` of the alive set `s` that issued it:
 `fetch` answers `h.ptr`, and `h.ptr` is what slot `h.index` of the set object holds
-(`C14.fetch_identity` + `Coupled`). -/
-theorem fetch_is_the_stashed_object (n : Nat) (ops : List COp) (S : Sys) (hS : S = (Sys.init n).run ops)
+(`C14.fetch_identity` + `Coupled`).
+Restricted form — pinned system of Proofs/DynCompose.lean, restrictions R1–R6 of the module docstring; full strength: `fetch_is_the_stashed_object`. -/
+theorem fetch_is_the_stashed_object_partial (n : Nat) (ops : List COp) (S : Sys) (hS : S = (Sys.init n).run ops)
     (s : Nat) (rs : RootSet) (h : Handle) (hl : S.d.liveSet s = some rs) (hm : h ∈ S.d.handles)
     (hs : h.set = s) :
     DynRoots.step S.d (.fetch s h) = .ok S.d (.ptr h.ptr) ∧
     ∃ l o, S.loc[s]? = some l ∧ S.a.ctx.heap.get l.id = some o ∧
       o.slots[h.index]? = some (some (.strong h.ptr)) := by
-  have hc : Live n S := (show Coupled n S by rw [hS]; exact coupled_run n ops).live_of_liveSet hl
+  have hc : Live n S := (show Coupled n S by rw [hS]; exact coupled_run_partial n ops).live_of_liveSet hl
   obtain ⟨hf, _, _, hocc, _⟩ := (C14.fetch_identity S.dops S.d hc.dyn s rs h hl hm).1 hs
-  obtain ⟨l, o, hloc, _, ho, _, _, _, hiff, _, _⟩ := set_object_mirrors_table n ops S hS s rs hl
+  obtain ⟨l, o, hloc, _, ho, _, _, _, hiff, _, _⟩ := set_object_mirrors_table_partial n ops S hS s rs hl
   exact ⟨hf, l, o, hloc, ho, (hiff h.index h.ptr).2 hocc⟩
 
 /-- The coupled `fetch` inside a callback: both reads of its encoding are accepted, the second one
 returns the stashed pointer (the client observes `s<h.ptr>`), that pointer is held by the callback
-afterwards — hence accessible and `Safe` — and neither the heap, the root nor the tables change. -/
-theorem fetch_holds (n : Nat) (ops : List COp) (S : Sys) (hS : S = (Sys.init n).run ops)
+afterwards — hence accessible and `Safe` — and neither the heap, the root nor the tables change.
+Restricted form — pinned system of Proofs/DynCompose.lean, restrictions R1–R6 of the module docstring; full strength: `fetch_holds`. -/
+theorem fetch_holds_partial (n : Nat) (ops : List COp) (S : Sys) (hS : S = (Sys.init n).run ops)
     (s : Nat) (rs : RootSet) (h : Handle) (hl : S.d.liveSet s = some rs) (hm : h ∈ S.d.handles)
     (hs : h.set = s) (hcb : S.a.cb ≠ none) :
     (S.step (.fetch s h)).a.holds (.strong h.ptr) = true ∧
@@ -249,9 +601,9 @@ theorem fetch_holds (n : Nat) (ops : List COp) (S : Sys) (hS : S = (Sys.init n).
     (∃ l, S.loc[s]? = some l ∧
       ((S.a.step (.readRoot l.slot)).1.step (.read l.id h.index)).2 = Arena.showPtr (.strong h.ptr)) ∧
     Safe (S.step (.fetch s h)).a.ctx h.ptr := by
-  have hc : Live n S := (show Coupled n S by rw [hS]; exact coupled_run n ops).live_of_liveSet hl
+  have hc : Live n S := (show Coupled n S by rw [hS]; exact coupled_run_partial n ops).live_of_liveSet hl
   obtain ⟨hsets, _⟩ := DynRoots.liveSet_eq_some.1 hl
-  obtain ⟨_, l, o, hloc, ho, hslot⟩ := fetch_is_the_stashed_object n ops S hS s rs h hl hm hs
+  obtain ⟨_, l, o, hloc, ho, hslot⟩ := fetch_is_the_stashed_object_partial n ops S hS s rs h hl hm hs
   obtain ⟨hh, _⟩ := hc.sets s l rs hloc hsets
   have hq : (mirror l.cap rs.slots.slots)[h.index]? = some (some (.strong h.ptr)) := by
     obtain ⟨o', ho', _, _, hs'⟩ := hh.obj
@@ -282,7 +634,7 @@ theorem drop_outside_callback_net_effect (n : Nat) (ops : List COp) (S : Sys)
       (S.step (.dropHandle h)).a =
         { S.a with marked := false, ctx := Arena.setSlot S.a.ctx l.id h.index none } ∧
       (S.step (.dropHandle h)).d = DynRoots.next S.d (.dropHandle h) := by
-  have hc : Live n S := (show Coupled n S by rw [hS]; exact coupled_run n ops).live_of_liveSet hl
+  have hc : Live n S := (show Coupled n S by rw [hS]; exact coupled_run_partial n ops).live_of_liveSet hl
   obtain ⟨hsets, _⟩ := DynRoots.liveSet_eq_some.1 hl
   have hlt : h.set < S.loc.length := by
     rw [hc.len]; exact (List.getElem?_eq_some_iff.1 hsets).1
@@ -308,7 +660,7 @@ theorem stash_net_effect (n : Nat) (ops : List COp) (S : Sys) (hS : S = (Sys.ini
     (S.step (.stash s r)).a.root = S.a.root ∧
     (S.step (.stash s r)).a.cover = .pair l.id r :: S.a.cover ∧
     (S.step (.stash s r)).d = DynRoots.next S.d (.stash s r) := by
-  have hc : Live n S := (show Coupled n S by rw [hS]; exact coupled_run n ops).live_of_liveSet hl
+  have hc : Live n S := (show Coupled n S by rw [hS]; exact coupled_run_partial n ops).live_of_liveSet hl
   obtain ⟨hsets, _⟩ := DynRoots.liveSet_eq_some.1 hl
   obtain ⟨hh, _⟩ := hc.sets s l rs hloc hsets
   obtain ⟨nctx, nroot, _, _, ncover, _⟩ :=
@@ -323,13 +675,14 @@ theorem stash_net_effect (n : Nat) (ops : List COp) (S : Sys) (hS : S = (Sys.ini
 /-! ## Arena drop -/
 
 /-- Dropping the arena (outside callbacks) is coupled with `destroySet` for every set: afterwards
-the arena is gone and no set is alive; the handles are untouched. -/
-theorem arena_drop_destroys_sets (n : Nat) (ops : List COp) (S : Sys) (hS : S = (Sys.init n).run ops)
+the arena is gone and no set is alive; the handles are untouched.
+Restricted form — pinned system of Proofs/DynCompose.lean, restrictions R1–R6 of the module docstring. -/
+theorem arena_drop_destroys_sets_partial (n : Nat) (ops : List COp) (S : Sys) (hS : S = (Sys.init n).run ops)
     (halive : S.a.alive = true) (hcb : S.a.cb = none) :
     (S.step .dropArena).a.alive = false ∧ (∀ s, (S.step .dropArena).d.liveSet s = none) ∧
     (S.step .dropArena).d = DynRoots.run S.d (destroyOps S.d.sets.length) ∧
     (S.step .dropArena).d.handles = S.d.handles := by
-  have hc : Live n S := (show Coupled n S by rw [hS]; exact coupled_run n ops).live halive
+  have hc : Live n S := (show Coupled n S by rw [hS]; exact coupled_run_partial n ops).live halive
   have e : S.step .dropArena = (S.doA [.dropArena]).doDs (destroyOps S.d.sets.length) := by
     simp [Sys.step, halive, hcb]
   have hd := hc.dropArena hcb
@@ -354,15 +707,16 @@ theorem arena_drop_destroys_sets (n : Nat) (ops : List COp) (S : Sys) (hS : S = 
 /-- Handles outlive their arena harmlessly: in every coupled state whose arena has been dropped, no
 set is alive, so cloning or dropping any live handle only adds / removes the handle (no table is
 touched, nothing can panic), `fetch` / `try_fetch` / `contains` have no alive set to be called on,
-and every collector-model op is refused. -/
-theorem handles_outlive_arena (n : Nat) (ops : List COp) (S : Sys) (hS : S = (Sys.init n).run ops)
+and every collector-model op is refused.
+Restricted form — pinned system of Proofs/DynCompose.lean, restrictions R1–R6 of the module docstring; full strength: `handles_outlive_arena`. -/
+theorem handles_outlive_arena_partial (n : Nat) (ops : List COp) (S : Sys) (hS : S = (Sys.init n).run ops)
     (hdead : S.a.alive = false) (h : Handle) (hm : h ∈ S.d.handles) :
     (∀ s, S.d.liveSet s = none) ∧
     DynRoots.step S.d (.clone h) = .ok { S.d with handles := h :: S.d.handles } (.handle h) ∧
     DynRoots.step S.d (.dropHandle h) = .ok { S.d with handles := S.d.handles.erase h } .unit ∧
     (∀ s, DynRoots.step S.d (.fetch s h) = .illFormed) ∧
     (∀ op, (S.a.step op).1 = S.a) := by
-  have hc : Coupled n S := by rw [hS]; exact coupled_run n ops
+  have hc : Coupled n S := by rw [hS]; exact coupled_run_partial n ops
   have hnone := hc.dead hdead
   obtain ⟨h1, h2⟩ := C14.outlive S.d h hm (hnone h.set)
   refine ⟨hnone, h1, h2, fun s => ?_, fun op => step_dead hdead op⟩
@@ -428,7 +782,7 @@ example : ((Sys.init 1).run demo).aops = [
     .enter .mutate, .readRoot 0, .store .raw 0 0 none, .leave,
     .collect .finishCycle .drop none none, .collect .finishCycle .drop none none] := rfl
 
-/-- The hypotheses of `collectable_after_last_drop` hold in `afterDrop` for set 0 and object 1: no
+/-- The hypotheses of `collectable_after_last_drop_partial` hold in `afterDrop` for set 0 and object 1: no
 handle of object 1 is left, and object 1 is reachable by no route avoiding the edge 0 → 1 … -/
 theorem afterDrop_only_via_set : ¬ ReachAvoiding afterDrop.a.ctx afterDrop.a.root 0 1 1 := by
   have key : ∀ j, ReachAvoiding afterDrop.a.ctx afterDrop.a.root 0 1 j → j = 0 ∨ j = 2 := by
@@ -451,14 +805,14 @@ theorem afterDrop_only_via_set : ¬ ReachAvoiding afterDrop.a.ctx afterDrop.a.ro
 /-- … so the theorem applies: two `finish_cycle` calls leave object 1 neither allocated nor
 undestructed (and the kernel evaluation above shows it is in fact destructed and released). -/
 example : ¬ ∃ o, ((afterDrop.step fc).step fc).a.ctx.heap.get 1 = some o ∧ o.live = true :=
-  (collectable_after_last_drop 1 (demo.take 11) afterDrop rfl 0 1
+  (collectable_after_last_drop_partial 1 (demo.take 11) afterDrop rfl 0 1
     ⟨true, ⟨[.vacant DynRoots.nullIndex, .occupied 2 0], 0⟩⟩ (by decide) (by decide) ⟨0, 0, 2⟩ (by decide)
     (by decide) afterDrop_only_via_set).2.2.2
 
-/-- `stashed_survives_while_handle` applies in `afterDrop` to the remaining handle (object 2, still
+/-- `stashed_survives_while_handle_partial` applies in `afterDrop` to the remaining handle (object 2, still
 white, stashed into a set that was black): it is `Safe`. -/
 example : Safe afterDrop.a.ctx 2 :=
-  (stashed_survives_while_handle 1 (demo.take 11) afterDrop rfl ⟨0, 1, 2, 1⟩ (by decide)
+  (stashed_survives_while_handle_partial 1 (demo.take 11) afterDrop rfl ⟨0, 1, 2, 1⟩ (by decide)
     ⟨true, ⟨[.vacant DynRoots.nullIndex, .occupied 2 0], 0⟩⟩ (by decide)).2 2 (.temp 2 (by simp))
 
 /-- `fetch` inside a callback: the two reads of the encoding put the stashed pointer among the held
